@@ -25,8 +25,6 @@ class ConfigDict(ComposedNode, dict):
         dict.__init__(self, self._children)
 
     def _set(self, name, value):
-        if name in dir(type(self)):
-            raise ValueError(f'Cannot add a child node with name {name!r} as it would shadow a class method/attribute: {getattr(type(self), name)}')
         value = ComposedNode.ayns.set_child(self, name, value)
         dict.__setitem__(self, name, value)
         return value
@@ -39,6 +37,11 @@ class ConfigDict(ComposedNode, dict):
     def __setattr__(self, name, value):
         if name.startswith('_'):
             return ComposedNode.__setattr__(self, name, value)
+
+        # (attribute syntax only: read back as an attribute the name would give the method, not the entry. An entry of that name as
+        # such - a key of a mapping, an argument 'copy' or 'values' of a function node - is fine: node[name])
+        if name in dir(type(self)):
+            raise ValueError(f'Cannot add a child node with name {name!r} as it would shadow a class method/attribute: {getattr(type(self), name)}')
 
         return self._set(name, value)
 
